@@ -362,10 +362,14 @@ def run_fit(case):
     kafe2 = fs.k("kafe2")
     # ---- profiles
     if "profile" in do:
-        cpf = kafe2.ContoursProfiler(fit, profile_points=5, profile_subtract_min=False)
+        # "the cost itself, not the rise" is asked for either when the profiler is built or with each request (a per-call False must win over the profiler's default)
+        per_call = bool(case["band_x"]) and case["band_x"][0] > 4.5
+        cpf = kafe2.ContoursProfiler(fit, profile_points=5) if per_call else kafe2.ContoursProfiler(fit, profile_points=5, profile_subtract_min=False)
+        if per_call:
+            labels.add("subtract_min_given_per_call")
         for nm in free[:2]:
             with guard("get_profile"):
-                prof = cpf.get_profile(nm, sigma=case["sigma"])
+                prof = cpf.get_profile(nm, sigma=case["sigma"], subtract_min=False) if per_call else cpf.get_profile(nm, sigma=case["sigma"])
             bad = []
             for xv, yv in zip(prof[0], prof[1]):
                 want = ref_profile(cost_free, free, x_hat, {nm: float(xv)})
